@@ -119,16 +119,53 @@ class GenModel:
         self._defs[f['sig']] = d
         return d
 
+    def fn_with_helpers(self, q, need, exclude=()):
+        """the function q - or, when need(q's function) does not hold, a copy of it with the in-repo helpers it calls put back
+        (engine/inline.py) if need holds for the copy.  For rules whose anchor was moved into a helper by an "extract function"."""
+        f = self.fn(q)
+        if need(f):
+            return f
+        from .inline import inlined
+        f2, names = inlined(self.facts, f, rounds=2, single_use=False,
+                            want=lambda h, call: not h['q'].startswith(('dispatchV', 'gen_ast')) and h['q'] not in exclude and h['q'] != q)
+        if names and need(f2):
+            return f2
+        return f
+
     def origin(self, f, e, depth=0):
-        """Follow single-definition locals to their initialiser."""
+        """Follow single-definition locals to their initialiser; a field of a local that is initialised with an aggregate
+        (Site site = {.where = .., .pos = ..}; ... site.pos) is that field's initialiser."""
         e = strip_casts(e)
-        while e is not None and e.get('k') == 'ref' and e.get('dk') == 'var' and depth < 8:
-            ds = self.defs(f).get(e['d'], [])
-            if len(ds) == 1 and ds[0][0] == 'init' and ds[0][1] is not None:
-                e = strip_casts(ds[0][1])
-                depth += 1
-            else:
+        while e is not None and depth < 8:
+            if e.get('k') == 'ref' and e.get('dk') == 'var':
+                ds = self.defs(f).get(e['d'], [])
+                if len(ds) == 1 and ds[0][0] == 'init' and ds[0][1] is not None:
+                    e = strip_casts(ds[0][1])
+                    depth += 1
+                    continue
                 break
+            if e.get('k') == 'member' and e.get('mk') == 'field' and not e.get('arrow'):
+                root, path = member_path(e)
+                root = strip_casts(root) if root is not None else None
+                if root is not None and root.get('k') == 'ref' and root.get('dk') == 'var' and path:
+                    ds = self.defs(f).get(root['d'], [])
+                    written = any(x.get('k') == 'assign' and strip_casts(member_path(strip_casts(x['l']))[0] or {}).get('d') == root['d']
+                                  for x in walk_all_exprs(f['body']) if x.get('k') == 'assign' and strip_casts(x['l']).get('k') == 'member')
+                    if len(ds) == 1 and ds[0][0] == 'init' and ds[0][1] is not None and not written:
+                        cur = strip_casts(strip_copies(ds[0][1]))
+                        okp = True
+                        for name in path:
+                            if cur is not None and cur.get('k') == 'init' and name in dict(cur.get('fields') or []):
+                                cur = strip_casts(strip_copies(dict(cur['fields'])[name]))
+                            else:
+                                okp = False
+                                break
+                        if okp and cur is not None:
+                            e = cur
+                            depth += 1
+                            continue
+                break
+            break
         return e
 
     def inline_value(self, f, e, subst=None, depth=0):
@@ -169,11 +206,12 @@ class GenModel:
                     sub2 = {p['d']: self.inline_value(f, a, subst, depth + 1) for p, a in zip(g['params'], e['args'])}
                     return self.inline_value(g, rets[0]['e'], sub2, depth + 1)
         out = dict(e)
+        # (descending into an expression does not count against the depth: that bounds the expansion of locals and helpers)
         for key in ('obj', 'l', 'r', 'e', 'base', 'c', 't'):
             if isinstance(e.get(key), dict):
-                out[key] = self.inline_value(f, e[key], subst, depth + 1)
+                out[key] = self.inline_value(f, e[key], subst, depth)
         if isinstance(e.get('args'), list):
-            out['args'] = [self.inline_value(f, a, subst, depth + 1) if isinstance(a, dict) else a for a in e['args']]
+            out['args'] = [self.inline_value(f, a, subst, depth) if isinstance(a, dict) else a for a in e['args']]
         return out
 
     def same_var(self, a, b, f=None):
